@@ -28,7 +28,7 @@ import gensql
 import sqlcheck
 import sqlimpl
 import c02
-from common import Check, Driver, Infra, canon_json, log
+from common import Check, Driver, Infra, canon_json, leanchecker, log
 
 # ------------------------------------------------------------------------------------------------- the adversarial pool
 FRESH = ["n1", "n2", "n3", "zz9", "w_1", "rel0", "inner1", "o2"]
@@ -220,7 +220,7 @@ def gen_statements(chk):
     thorough = chk.tier == "thorough"
     shapes = list(gensql.enumerate_shapes(2 if thorough else 1))
     chk.rng.shuffle(shapes)
-    n_shapes = 150 if thorough else 50
+    n_shapes = 120 if thorough else 50
     picked = 0
     for name, s in shapes:
         if picked >= n_shapes:
@@ -229,7 +229,7 @@ def gen_statements(chk):
         if any(isinstance(n, list) and n and n[0] in ("derived", "with") for n in gensql._walk(s)) or \
                 any(isinstance(n, list) and len(n) == 4 and n[0] == "table" and n[2] for n in gensql._walk(s)):
             out.append((name, s)); picked += 1
-    n_rand = 420 if thorough else 120
+    n_rand = 330 if thorough else 120
     R = gensql.Rand(chk.rng, max_depth=3 if thorough else 2, allow={"subq_item": False})
     i = 0
     guard = 0
@@ -403,7 +403,7 @@ def run(chk):
     for ci, (si, op, a, cls) in enumerate(keep):
         ds = list(base_dialects)
         if extra_dialects:
-            ds += [extra_dialects[(ci * 2) % len(extra_dialects)], extra_dialects[(ci * 2 + 1) % len(extra_dialects)]]
+            ds += [extra_dialects[ci % len(extra_dialects)]]      # every other sqlfluff dialect in rotation
         if si is None:
             ds = [WITNESS_D7["dialect"]]
         for d in ds:
@@ -528,6 +528,12 @@ def run(chk):
                              "impl_original": s0, "impl_renamed": s1})
         reported += 1
     sqlimpl.close_pool()
+    if thorough and chk.lean.build_ok:
+        ok, out = leanchecker(["SqlLineage.Props.C08", "SqlLineage.Proofs.RenameLemmas", "SqlLineage.Model.Rename",
+                               "SqlLineage.Model.AliasScope"])
+        chk.coverage["leanchecker"] = "accepted" if ok else "REJECTED: " + out[-300:]
+        if not ok:
+            chk.lean.forbidden.append("leanchecker rejected SqlLineage.Props.C08: " + out[-300:])
     chk.coverage.update({"statements": len(stmts), "operations": len(keep), "dialects": base_dialects + extra_dialects,
                          "renamings_per_statement": K, "distribution": st.as_dict(), "d7_class_pairs": d7_class_cases,
                          "exhaustive": False})
